@@ -312,7 +312,7 @@ def w_symmetric(st, K, L):
 
 class C01(TrajCheck):
     pid = "C01"
-    lean_modules = ["MTProps.C01"]
+    lean_modules = ["MTProps.C01", "MTProps.C01NonVacuity"]
 
     def body(self):
         n = 120 if self.tier == "quick" else 2000
